@@ -69,7 +69,7 @@ class ReplayPool:
                 g = self.globs[gi]
                 exec(mc, g)
                 fn = g['make'](k, dv)
-                del g['make'], g['make_dir']
+                poolmod.forget_factories(g)
                 self.reg.set_code(fn.__code__, c)
                 self.reg.set_env(fn, e)
                 self.fns[(c, e)] = fn
@@ -83,13 +83,6 @@ class ReplayPool:
         for key in [k for k in self.fns if k[0] == c]:
             del self.fns[key]
         gc.collect()
-        if self.reg.code_alive(c) and os.environ.get('C10_DEBUG_REFS'):
-            for ref, cid in self.reg._codes.values():
-                if cid == c and ref() is not None:
-                    for r in gc.get_referrers(ref()):
-                        print('REFERRER', type(r), repr(r)[:300])
-                        for r2 in gc.get_referrers(r):
-                            print('   <-', type(r2), repr(r2)[:200])
         if self.reg.code_alive(c):
             raise common.MachineryError('C10 replay: code object %d is still alive after the pool dropped it' % c)
 
